@@ -109,6 +109,9 @@ def run_case(case):
         if pre and pre[0] == 'call':
             d(x * 0.5 - 1.25, *rnd_args, **rnd_kwds)
             del rec.calls[:]
+        if pre and pre[0] == 'again':
+            d(x, *rnd_args, **rnd_kwds)           # the SAME object at the SAME point: the second call is the recorded one
+            del rec.calls[:]
         if cls == 'Derivative':
             xi = x
         elif cls == 'Gradient':
@@ -196,6 +199,11 @@ def make_cases(tier, seed):
         if cls != 'Derivative':
             cases.append((cls, m, n, o, dim, label, skw, xv, ua, full, ('raise', rnd.choice([2, 3, 4, 6]))))
         cases.append((cls, m, n, o, dim, label, skw, xv, ua, full, ('call',)))
+        if k % 2 == 0 or cls in ('Hessian', 'Hessdiag'):
+            cases.append((cls, m, n, o, dim, label, skw, xv, ua, full, ('again',)))
+    for c in base:
+        if c[0] == 'Hessian' and c[10] is None:
+            cases.append(c[:10] + (('again',),))          # every Hessian configuration also as the second call at the same point
     return cases
 
 
